@@ -69,3 +69,34 @@ VARIANTS += [
     dict(prop="C20", name="benign-reorder-merges", benign=True,
          edits=[dict(file=HQ, find="        .merge(step::router(Arc::clone(&transport)))\n        .merge(prepare::router(transport))\n        .layer(layer_fn(HelperAuthentication::<_, Helper>::new))", replace="        .merge(prepare::router(Arc::clone(&transport)))\n        .merge(step::router(transport))\n        .layer(layer_fn(HelperAuthentication::<_, Helper>::new))")]),
 ]
+
+OSF = "ipa-core/src/helpers/buffers/ordering_sender.rs"
+CBF = "ipa-core/src/helpers/buffers/circular.rs"
+URF = "ipa-core/src/helpers/buffers/unordered_receiver.rs"
+VARIANTS += [
+    # ---------------- C14 ----------------
+    dict(prop="C14", name="take-no-wake-writer", expect="WAKE-2|State::take=>wake(write_ready)",
+         edits=[dict(file=OSF, find="                Self::wake(&mut self.write_ready);\n", replace="")]),
+    dict(prop="C14", name="can-write-after-take", expect="WAKE-2|State::take:can_write-sampled-before-take",
+         edits=[dict(file=OSF, find="            let can_write = self.buf.can_write();\n            let next = self.buf.take();\n", replace="            let next = self.buf.take();\n            let can_write = self.buf.can_write();\n")]),
+    dict(prop="C14", name="pending-without-waker", expect="WAKE-1|helpers::buffers::ordering_sender::State::write",
+         edits=[dict(file=OSF, find="        if !self.buf.can_write() {\n            Self::save_waker(&mut self.write_ready, cx);\n            return Poll::Pending;\n        }", replace="        if !self.buf.can_write() {\n            if self.write_ready.is_none() {\n                Self::save_waker(&mut self.write_ready, cx);\n            }\n            return Poll::Pending;\n        }")]),
+    dict(prop="C14", name="wrong-slot", expect="SLOT|State::take:save_waker(stream_ready)",
+         edits=[dict(file=OSF, find="            Self::save_waker(&mut self.stream_ready, cx);\n            Poll::Pending", replace="            Self::save_waker(&mut self.write_ready, cx);\n            Poll::Pending")]),
+    dict(prop="C14", name="woken-at-backwards", expect="WHO-cursor|woken_at",
+         edits=[dict(file=OSF, find="        self.woken_at = std::cmp::max(self.woken_at, i);", replace="        self.woken_at = i;")]),
+    dict(prop="C14", name="pending-on-refused-add", expect="GUARD-next_op|pending-on-is_ok",
+         edits=[dict(file=OSF, find="                    if self.waiting.add(curr, i, cx.waker()).is_ok() {\n                        break Poll::Pending;\n                    }", replace="                    let _ = self.waiting.add(curr, i, cx.waker());\n                    break Poll::Pending;")]),
+    dict(prop="C14", name="send-wakes-same-index", expect="WAKE-2|Send::poll:wake-index",
+         edits=[dict(file=OSF, find="            this.sender.waiting.wake(this.i + 1);", replace="            this.sender.waiting.wake(this.i);")]),
+    dict(prop="C14", name="read-cursor-unwrapped", expect="WHO-cursor|read@",
+         edits=[dict(file=CBF, find="        self.read = self.inc(self.read, delta);", replace="        self.read = self.read + delta;")]),
+    dict(prop="C14", name="wrap-single-capacity", expect="WHO-cursor|shape:wrap",
+         edits=[dict(file=CBF, find="        val % (self.data.len() * 2)", replace="        val % self.data.len()")]),
+    dict(prop="C14", name="receiver-no-wake-next", expect="WAKE-2|OperatingState::poll_next",
+         edits=[dict(file=URF, find="                    if let Some(m) = self.spare.extend(b) {\n                        self.wake_next();", replace="                    if let Some(m) = self.spare.extend(b) {\n                        self.next += 1;")]),
+    dict(prop="C14", name="stale-add-accepts", expect="GUARD-add",
+         edits=[dict(file=OSF, find="        if current < self.woken_at {", replace="        if current > self.woken_at {")]),
+    dict(prop="C14", name="benign-write-early-return", benign=True,
+         edits=[dict(file=OSF, find="        if self.buf.can_read() {\n            Self::wake(&mut self.stream_ready);\n        }\n\n        Poll::Ready(())", replace="        if !self.buf.can_read() {\n            return Poll::Ready(());\n        }\n        Self::wake(&mut self.stream_ready);\n        Poll::Ready(())")]),
+]
